@@ -104,6 +104,13 @@ pub fn dw_i32() -> i32 { -3 }
 pub fn dw_bool() -> bool { true }
 pub fn dw_string() -> String { String::from("dw") }
 pub fn dw_opt() -> Option<u8> { Some(9) }
+pub fn dw_tricky() -> Tricky { Tricky(5) }
+
+/// a field type whose INHERENT `default()` is not its `Default::default()`: generated code must name the trait
+#[derive(Debug, Clone, PartialEq, Eq, Hash, PartialOrd, Ord)]
+pub struct Tricky(pub u8);
+impl Tricky { pub const fn default() -> Self { Tricky(9) } }
+impl Default for Tricky { fn default() -> Self { Tricky(0) } }
 
 #[derive(Debug, Clone, PartialEq)]
 pub struct Arr<const N: usize>(pub [u8; N]);
